@@ -11,11 +11,25 @@ import (
 // vSock is the in-package fake raw socket: it records every frame the server transmits.
 type vSock struct {
 	frames [][]byte
+	rx     [][]byte // frames the network delivers, in order; when they are used up recv stops the receive loop
 }
+
+// vStop is what the scripted socket panics with once every scripted frame was delivered (the real loop has no exit).
+type vStop struct{}
 
 func (v *vSock) open(iface string, etherType uint16) error { return nil }
 func (v *vSock) close() error                              { return nil }
-func (v *vSock) recv(buf []byte) (int, error)              { return 0, nil }
+func (v *vSock) recv(buf []byte) (int, error) {
+	if len(v.rx) == 0 {
+		if v.rx != nil {
+			panic(vStop{})
+		}
+		return 0, nil
+	}
+	f := v.rx[0]
+	v.rx = v.rx[1:]
+	return copy(buf, f), nil
+}
 func (v *vSock) send(iface string, dst net.HardwareAddr, etherType uint16, data []byte) error {
 	v.frames = append(v.frames, data)
 	return nil
